@@ -75,6 +75,13 @@ def _convert(eng, n, vpl, focus, natoms, comments, tag="", counts0=(3, 4, 5)):
         atoms.append(a)
     sink = _Sink()
     sym = (builtin_shims(io, ("int", "float")) + [(io, "str", strs.sym_str_t)] + rewrite.function_patches(io, "write_cube")) if eng.symbolic else []
+    if eng.symbolic:
+        from symx import shims as _shims
+
+        # helpers that write_cube may call (defined in io) see the same models; a math module, if io uses one, is shimmed
+        sym += [(io, name, rewrite.rewritten(f)) for name, f in vars(io).items() if name.startswith("_") and callable(f) and getattr(f, "__module__", "") == io.__name__ and not isinstance(f, type)]
+        if hasattr(io, "math"):
+            sym.append((io, "math", _shims.MATH))
     with patched(*sym):
         d = io.read_dx(iter(lines))
         io.write_cube(sink, d, atoms)
